@@ -57,8 +57,8 @@ pub fn build_step(
         node.set_parent_in(typ, on, parent);
     }
 
-    match &step.next {
-        Some(next) => match &tree.node(next) {
+    if let Some(next) = &step.next {
+        match &tree.node(next) {
             Some(next) => {
                 node.set_next(next, false);
             }
@@ -66,14 +66,12 @@ pub fn build_step(
                 "found next node error by '{}'",
                 next
             ))),
-        },
-        None => {
-            if !step.branches.is_empty() {
-                let mut branch_prev = node.clone();
-                for branch in step.branches.iter_mut() {
-                    build_branch(branch, tree, &node, &mut branch_prev, level + 1)?;
-                }
-            }
+        }
+    }
+    if !step.branches.is_empty() {
+        let mut branch_prev = node.clone();
+        for branch in step.branches.iter_mut() {
+            build_branch(branch, tree, &node, &mut branch_prev, level + 1)?;
         }
     }
 
